@@ -451,3 +451,34 @@ def check(ctx: Ctx) -> None:
         for cname in ("Popen2IO", "SocketIO"):
             check_exact_read(repo, ob, repo.cls(cname).methods["read"])
 
+    # the receiver thread sits in recv() between frames for as long as the peer is silent: a socket that keeps a timeout ends the
+    # thread (and loses everything sent later) after that long without traffic
+    from .C16 import check_socket_blocking
+    check_socket_blocking(ctx, "C02.p")
+
+    # a callback registration is the receiving end of its channel for as long as the peer may send: `_local_receive` routes by it even
+    # after the Channel object is gone.  Only the close transition (`_no_longer_opened`, which also fires the endmarker) may remove it.
+    with ctx.obligation("C02.q", "callback-registration-removed-only-by-close") as ob:
+        n = 0
+        for fi in repo.scan_funcs():
+            if fi.module.name != GB:
+                continue
+            for x in repo.own_nodes(fi):
+                rm = None
+                if isinstance(x, ast.Call) and isinstance(x.func, ast.Attribute) and x.func.attr in ("pop", "popitem", "clear") and norm(x.func.value).endswith("_callbacks"):
+                    rm = x
+                elif isinstance(x, ast.Delete) and any(isinstance(t, ast.Subscript) and norm(t.value).endswith("_callbacks") for t in x.targets):
+                    rm = x
+                elif isinstance(x, ast.Call) and isinstance(x.func, ast.Attribute) and x.func.attr in ("pop", "popitem", "clear") and isinstance(x.func.value, ast.Name):
+                    al = repo.local_alias(x.func.value.id, fi)
+                    if al is not None and norm(al).endswith("_callbacks"):
+                        rm = x
+                if rm is None:
+                    continue
+                n += 1
+                ok = fi.qualname == f"{GB}.ChannelFactory._no_longer_opened"
+                ob.site(fi, rm, "removal of a callback registration", ok=ok)
+                if not ok:
+                    ob.violation(fi, rm, "a callback registration is removed outside the close transition (_no_longer_opened): items the peer sends afterwards are dropped "
+                                         "silently and the endmarker is never delivered", construct=f"_callbacks removal in {fi.short}")
+        ob.require(n >= 1, "no removal of a callback registration found (expected in ChannelFactory._no_longer_opened)")
